@@ -1,0 +1,26 @@
+// This Source Code Form is subject to the terms of the Mozilla Public
+// License, v. 2.0. If a copy of the MPL was not distributed with this
+// file, You can obtain one at http://mozilla.org/MPL/2.0/.
+
+//go:build verif
+
+package cleanup
+
+// Contracts for the deductive verifier in /verif (govc). Comment-only file: it
+// adds no code. Lines starting with //@ are parsed by govc; see /verif/DESIGN.md.
+
+// C07: a cleanup controller releases its finalizer on a torn-down input only after its removal
+// handler succeeded. frCalls / frNil are ghost state written by the interface contract of the
+// handler: the number of FinalizerRemoval calls and whether the last one returned nil.
+//@ ghostvar frCalls int
+//@ ghostvar frNil bool
+//@ iface Handler.FinalizerRemoval
+//@   modifies frCalls, frNil
+//@   ensures [fr-record] frCalls == old(frCalls) + 1 && frNil == (result == nil)
+//@
+//@ func (*Controller[I]).processInput
+//@   props C07
+//@   requires [wired] ctrl != nil && r != nil && logger != nil && ctrl.handler != nil
+//@   at RemoveFinalizer #1
+//@     assert [finalizer-released-only-after-handler-succeeded] frCalls == old(frCalls) + 1 && frNil
+//@     assert [finalizer-released-only-on-torn-down-input] mdOf(inputElem).phase == 1
